@@ -169,13 +169,38 @@ def run(ctx):
         pf = [p for st in o["steps"] for p in st["pred"] if not p.startswith("P7")]
         if pf and not (not f7_fixed and any("reorg failed" in st["err"] for st in o["steps"])):
             fails.append(("C07:inv:" + pf[0].split(" ")[0], "chain-DB invariant fails: " + pf[0], c))
-    ctx.cov["evaluations"] = sum(len(o["steps"]) for o in outs) + len(outs2)
+    # restart (no crash) after every arrival: the restarted node must be on the same best block with the chain-DB
+    # invariant intact (C06_restart_inv), and feeding the blocks again must reach the crash-free final state
+    rcases = []
+    for c in (corpus + [x for x in cases if x["id"].startswith("g")][: (8 if ctx.tier == "quick" else 60)]):
+        rc_ = dict(c)
+        rc_["mode"] = "crash"
+        rc_["boundaries_only"] = True
+        rcases.append(rc_)
+    routs = cd.run_engine(ctx, eng, rcases, "c07r") if rcases else []
+    nrestart = 0
+    for c, o in zip(rcases, routs):
+        ua = o["unit_arrival"]
+        recs = {(kr["k"], kr.get("p", 0)): kr for kr in o["crash"]}
+        for i in range(len(c["arrivals"])):
+            k = sum(1 for a in ua if a <= i)          # journal length after arrival i
+            kr = recs.get((k, 0))
+            if kr is None:
+                continue
+            nrestart += 1
+            if kr["init_panic"] or kr["recover_err"]:
+                fails.append(("C07:restart-fails", "restart after arrival %d fails: %s%s" % (i, kr["init_panic"][:60], kr["recover_err"][:60]), c))
+            elif kr["best"] != o["bests"][i + 1]:
+                fails.append(("C07:restart-changes-best", "after a restart following arrival %d the best block is not the one the node was on" % i, c))
+            elif kr["pred"]:
+                fails.append(("C07:restart-inv:" + kr["pred"][0].split(" ")[0], "invariant fails after a restart following arrival %d: %s" % (i, kr["pred"][0]), c))
+    ctx.cov["evaluations"] = sum(len(o["steps"]) for o in outs) + len(outs2) + nrestart
     ctx.cov["traces_validated_against_impl"] = len(cases) + len(c2)
     ctx.cov["distinct_nontrivial"] = len(shapes)
     ctx.cov["rule"] = ("pairs of branches (prefix 0..2, lengths 1..4/5, shared or distinct first tx, invalid block at each position of the longer "
                        "branch) in three or more delivery orders incl. children before parents, plus random 3-branch trees; distinct = "
                        "distinct (size, best-height trace, MemPoolPut trace)")
-    ctx.cov["input_distribution"] = {"cases": len(cases), "corpus": len(corpus), "reference_runs": len(c2), "steps_with_reorg": nreorg,
+    ctx.cov["input_distribution"] = {"cases": len(cases), "corpus": len(corpus), "reference_runs": len(c2), "steps_with_reorg": nreorg, "restarts_after_arrivals": nrestart,
                                      "f7_fixed_in_source": f7_fixed}
     ctx.sample({"case": cases[0], "final": outs[0]["final"]["best"][:12]})
     seen = set()
